@@ -488,6 +488,15 @@ class Plumbing:
                 return self._classify_load(f, e.args[0], roots, env, wrap)
             if isinstance(e.func, ast.Attribute) and e.func.attr in ("to_numpy",) and not e.args and not e.keywords:
                 return self._classify_load(f, e.func.value, roots, env, wrap)
+            if q == "numpy.column_stack" and len(e.args) == 1 and not e.keywords:
+                # columns of a table are 1-D: stacking them as columns is the transpose of stacking them as rows
+                as_rows = ast.copy_location(ast.Call(func=ast.Attribute(value=ast.Name(id="np", ctx=ast.Load()), attr="vstack", ctx=ast.Load()), args=list(e.args), keywords=[]), e)
+                ast.fix_missing_locations(as_rows)
+                st = self._classify_load(f, as_rows, roots, env, wrap)
+                if st.kind == "csv":
+                    st.wrapper = f"T({st.wrapper})"
+                    return st
+                return Storage("?", src(e), e, f"call:{src(e)[:60]}", e)
             if q == "numpy.vstack" and len(e.args) == 1:
                 inner = e.args[0]
                 if isinstance(inner, ast.Name) and inner.id in env:
